@@ -130,6 +130,8 @@ def parse_output(text: str) -> dict:
         elif tag == "END":
             out["ended"] = True
             cur = None
+        elif tag == "ABORTED":
+            out["aborted"] = True
         elif cur is None:
             out["pre"].append(line)
         elif tag == "ROW":
@@ -147,6 +149,31 @@ def parse_output(text: str) -> dict:
         else:
             cur["other"].append(line)
     return out
+
+
+def run_job_resume(exe: str, events_file: str, n_events: int, schedule: Optional[List[int]] = None) -> dict:
+    """A fault / failed status aborts a real job.  The driver stops there; the remaining events of the
+    schedule are processed by a fresh process and spliced in (out['restarts'] counts them)."""
+    sched = list(schedule) if schedule is not None else list(range(n_events))
+    total = None
+    done = 0
+    restarts = 0
+    while True:
+        out = run_job(exe, events_file, sched[done:]) if done < len(sched) else None
+        if out is None:
+            break
+        if total is None:
+            total = out
+        else:
+            total["events"].extend(out["events"])
+            total["ended"] = out["ended"]
+            total["crashed"] = total.get("crashed") or out.get("crashed")
+        done += len(out["events"])
+        if out.get("crashed") or not out.get("aborted") or not out["events"]:
+            break
+        restarts += 1
+    total["restarts"] = restarts
+    return total
 
 
 def run_job(exe: str, events_file: str, schedule: Optional[List[int]] = None, timeout: float = 20.0) -> dict:
